@@ -548,8 +548,10 @@ impl<'de, R: Read<'de>> Parser<R> {
                     let symbol = self.parse_symbol()?;
                     let mut num_parser = Parser::from_slice_custom(symbol.as_bytes(), self.options);
                     match num_parser.parse_num_literal(10, true) {
-                        Ok(token) => Token::Number(token),
-                        Err(_) => Token::Symbol(symbol.into()),
+                        // Only a token that is a numeric literal as a whole is a
+                        // number; `1+` or `1.5.6` are symbols.
+                        Ok(token) if matches!(num_parser.peek(), Ok(None)) => Token::Number(token),
+                        _ => Token::Symbol(symbol.into()),
                     }
                 } else {
                     Token::Number(self.parse_num_literal(10, true)?)
